@@ -3,23 +3,38 @@ import json
 import os
 
 
-def cfg_text(start, ver, maxfree, ts="{1}", iddesc="FALSE", forkfrom=5, triples="TRUE"):
+def cfg_text(start, ver, maxfree, ts="{1}", iddesc="FALSE", forkfrom=5, triples="TRUE", dishonest="FALSE", maxbad=1):
     return ("SPECIFICATION Spec\nCONSTANTS\n  Start = %d\n  Ver = \"%s\"\n  MaxFree = %d\n  ForkFrom = %d\n"
-            "  TSChoices = %s\n  IdDesc = %s\n  Triples = %s\nINVARIANTS Emit\nCHECK_DEADLOCK FALSE\n"
-            % (start, ver, maxfree, forkfrom, ts, iddesc, triples))
+            "  TSChoices = %s\n  IdDesc = %s\n  Triples = %s\n  Dishonest = %s\n  MaxBad = %d\nINVARIANTS Emit\nCHECK_DEADLOCK FALSE\n"
+            % (start, ver, maxfree, forkfrom, ts, iddesc, triples, dishonest, maxbad))
 
 
 def plans(tier):
-    """(start, version, MaxFree, TSChoices, IdDesc, Triples) per TLC run."""
+    """(start, version, MaxFree, TSChoices, IdDesc, Triples, Dishonest[, ForkFrom]) per TLC run."""
     if tier == "quick":
-        return [(3, "10", 2, "{1}", "FALSE", "FALSE"), (3, "12", 2, "{1}", "FALSE", "FALSE"),
-                (1, "10", 2, "{1}", "FALSE", "TRUE"), (1, "12", 2, "{1}", "TRUE", "FALSE"), (1, "1", 2, "{1}", "FALSE", "FALSE"),
-                (2, "10", 1, "{1, 2}", "TRUE", "FALSE"), (2, "12", 1, "{1, 2}", "FALSE", "FALSE"), (2, "1", 1, "{1}", "TRUE", "FALSE")]
+        return [(3, "10", 2, "{1}", "FALSE", "FALSE", "FALSE"), (3, "12", 2, "{1}", "FALSE", "FALSE", "FALSE"),
+                (1, "10", 2, "{1}", "FALSE", "TRUE", "FALSE"), (1, "12", 2, "{1}", "TRUE", "FALSE", "FALSE"),
+                (1, "1", 2, "{1}", "FALSE", "FALSE", "FALSE"),
+                (2, "10", 1, "{1, 2}", "TRUE", "FALSE", "FALSE"), (2, "12", 1, "{1, 2}", "FALSE", "FALSE", "FALSE"),
+                (2, "1", 1, "{1}", "TRUE", "FALSE", "FALSE"),
+                # dishonest servers: events their own state does not allow sit in the branches
+                (2, "1", 1, "{1}", "FALSE", "TRUE", "TRUE"), (2, "1", 1, "{1}", "TRUE", "TRUE", "TRUE"),
+                (2, "10", 1, "{1}", "TRUE", "TRUE", "TRUE"), (2, "12", 1, "{1}", "FALSE", "TRUE", "TRUE"),
+                # ... and events sent on top of such an event (which cite it): the rejected-event oracle matters
+                (3, "10", 2, "{1}", "TRUE", "FALSE", "TRUE"), (3, "12", 2, "{1}", "FALSE", "FALSE", "TRUE")]
     out = []
     for ver in ["1", "2", "6", "10", "11", "12", "org.matrix.hydra.11"]:
-        out.append((1, ver, 2, "{1, 2}", "FALSE", "TRUE"))
-        out.append((2, ver, 2, "{1}", "TRUE", "FALSE"))
-        out.append((3, ver, 2, "{1}", "FALSE", "FALSE"))
+        out.append((1, ver, 2, "{1, 2}", "FALSE", "TRUE", "FALSE"))
+        out.append((2, ver, 2, "{1}", "TRUE", "FALSE", "FALSE"))
+        out.append((3, ver, 2, "{1}", "FALSE", "FALSE", "FALSE"))
+    # dishonest rooms: one version per resolution algorithm (the auth rules per version are C07's business)
+    for ver in ["1", "10", "12"]:
+        out.append((2, ver, 1, "{1, 2}", "FALSE", "TRUE", "TRUE"))
+        out.append((2, ver, 1, "{1, 2}", "TRUE", "TRUE", "TRUE"))
+        out.append((2, ver, 2, "{1}", "TRUE", "FALSE", "TRUE", 7))
+        out.append((3, ver, 2, "{1}", "TRUE", "TRUE", "TRUE"))
+        out.append((3, ver, 2, "{1, 2}", "FALSE", "FALSE", "TRUE"))
+    out.append((2, "10", 2, "{1}", "FALSE", "FALSE", "TRUE", 5))
     return out
 
 
@@ -28,10 +43,12 @@ def generate(ctx):
     from concurrent.futures import ThreadPoolExecutor
     d = ctx._spec_dir()
     jobs = []
-    for n, (start, ver, mf, ts, idd, tri) in enumerate(plans(ctx.tier)):
+    for n, plan in enumerate(plans(ctx.tier)):
+        start, ver, mf, ts, idd, tri, dis = plan[:7]
+        ff = plan[7] if len(plan) > 7 else (10 if start == 3 else 5)
         cfg = "Room_gen_%s_%d.cfg" % (ctx.tier, n)
         with open(os.path.join(d, cfg), "w") as f:
-            f.write(cfg_text(start, ver, mf, ts, idd, triples=tri, forkfrom=(10 if start == 3 else 5)))
+            f.write(cfg_text(start, ver, mf, ts, idd, triples=tri, forkfrom=ff, dishonest=dis))
         jobs.append(cfg)
     if ctx.tier == "quick":
         with ThreadPoolExecutor(max_workers=4) as ex:
